@@ -40,10 +40,13 @@ class Spec:
 
 class AnyS(Spec):
     """value passed through untouched; make gives an opaque value"""
-    def __init__(self, tag='any'):
+    def __init__(self, tag='any', truthy=None):
         self.tag = tag
+        self.truthy = truthy
 
     def make(self, ex, st):
+        if self.truthy is not None:
+            return Opaque(self.tag, {'truth': self.truthy})
         return Opaque(self.tag)
 
     def check(self, ex, st, v, label, line=0):
@@ -427,6 +430,17 @@ class FContract:
             st.assume(fn(A, r))
         st.mut += 0 if self.pure else 1
         yield st, r
+
+    def apply_ctor(self, ex, st, args, kw, line):
+        """constructor call of a class under (assumed) contract: parameters
+        are those of __init__ without self"""
+        names = list(self._params({}).keys()) if not callable(self.params) \
+            else self.ctor_names
+        vals = dict(zip(names, args))
+        vals.update(kw)
+        for n, d in getattr(self, 'ctor_defaults', {}).items():
+            vals.setdefault(n, d)
+        yield from self.apply(ex, st, vals, line)
 
     def _remake(self, ex, st, get, A, sp):
         cur = get(A)
